@@ -138,7 +138,7 @@ func descSnaps(a []*asset.Snapshot) string {
 
 // checkReads issues every read against the repository and compares with the model.
 // Returns (violation, knownKey).
-func checkReads(repo asset.Repository, m *repoModel, kind string) (string, string) {
+func checkReads(repo asset.Repository, m *repoModel, kind string, tolerateKnown bool) (string, string) {
 	for _, name := range []string{"A", "B", "Z"} {
 		want := m.data[name]
 		ch, err := repo.Get(name)
@@ -157,7 +157,9 @@ func checkReads(repo asset.Repository, m *repoModel, kind string) (string, strin
 				if kind == "sql" && len(got) == 0 {
 					key = "sql-unknown-asset-reads-as-empty"
 				}
-				return fmt.Sprintf("Get(%s) of a never-appended asset succeeded with %s (an error is required)", name, descSnaps(got)), key
+				if !(tolerateKnown && key != "") {
+					return fmt.Sprintf("Get(%s) of a never-appended asset succeeded with %s (an error is required)", name, descSnaps(got)), key
+				}
 			}
 		default: // appended with empty batches only: error or empty stream are both acceptable
 			if err == nil {
@@ -193,7 +195,9 @@ func checkReads(repo asset.Repository, m *repoModel, kind string) (string, strin
 					if kind == "sql" {
 						key = "sql-unknown-asset-reads-as-empty"
 					}
-					return fmt.Sprintf("GetSince(%s) of a never-appended asset succeeded (an error is required)", name), key
+					if !(tolerateKnown && key != "") {
+						return fmt.Sprintf("GetSince(%s) of a never-appended asset succeeded (an error is required)", name), key
+					}
 				}
 			}
 			if h > 1 && len(want) == 0 {
@@ -256,10 +260,16 @@ func replayRepo(k repoKind, init string, hist []repoOp) (state string, viol stri
 			m.appended[op.Name] = true
 		}
 		before := stateFn()
-		viol, key = checkReads(repo, m, k.name)
-		if viol == "" {
+		viol, key = checkReads(repo, m, k.name, false)
+		if viol != "" && key != "" {
+			// a recorded finding: report it, and check everything else in this state as well
+			if v2, k2 := checkReads(repo, m, k.name, true); v2 != "" {
+				viol, key = v2, k2
+			}
+		}
+		if viol == "" || key != "" {
 			if after := stateFn(); after != before {
-				viol = "reads changed the persisted state"
+				viol, key = "reads changed the persisted state", ""
 			}
 		}
 	}, mc.Options{})
